@@ -1,7 +1,8 @@
 /* hx_dtx: drives a real encoder (and two decoders) through activity/inactivity schedules and
    records, per packet, what came out (modules Dtx / DtxTrace, property C20).
    Input (stdin), one execution per line:
-     X fs ch app cx bitrate vbr dtx durQ1 maxb fec sigseed | seg seg ...
+     X fs ch app cx bitrate vbr dtx durQ1 maxb fec forcech sigseed | seg seg ...   (forcech: 0 = auto, 1, 2;
+       the older form without forcech is accepted too; segment lengths may be fractional milliseconds)
    seg = a<ms> (loud, non-stationary "speech-like"), s<ms> (digital silence), n<ms> (faint noise, -80 dBFS).
    durQ1 is the packet duration in half-milliseconds (5 = 2.5 ms ... 240 = 120 ms).
    Output: NDJSON, a "new" event per execution, then one "enc" event per packet.
@@ -13,7 +14,7 @@
 extern int opus_verif_encoder_peek(const OpusEncoder *st, int field);
 
 #define MAXSEG 16
-typedef struct { int kind; int ms; } seg_t;   /* kind 0 silence, 1 active, 2 faint noise */
+typedef struct { int kind; double ms; } seg_t;   /* kind 0 silence, 1 active, 2 faint noise */
 
 static double g_phase, g_t;
 static hx_rng g_sig;
@@ -52,7 +53,7 @@ static int cdb(const float *x, int n)
 
 static int run_line(char *line, int exno)
 {
-   int fs, ch, app, cx, br, vbr, dtx, durq, maxb, fec; unsigned long sseed;
+   int fs, ch, app, cx, br, vbr, dtx, durq, maxb, fec, fch = 0; unsigned long sseed;
    seg_t segs[MAXSEG]; int nseg = 0;
    char *bar = strchr(line, '|'), *tok;
    OpusEncoder *enc; OpusDecoder *d1, *d2; int err;
@@ -60,10 +61,13 @@ static int run_line(char *line, int exno)
    float *in, *out; unsigned char *pkt;
    if (!bar) return -1;
    *bar = 0;
-   if (sscanf(line, "X %d %d %d %d %d %d %d %d %d %d %lu", &fs, &ch, &app, &cx, &br, &vbr, &dtx, &durq, &maxb, &fec, &sseed) != 11) return -1;
+   if (sscanf(line, "X %d %d %d %d %d %d %d %d %d %d %d %lu", &fs, &ch, &app, &cx, &br, &vbr, &dtx, &durq, &maxb, &fec, &fch, &sseed) != 12) {
+      fch = 0;
+      if (sscanf(line, "X %d %d %d %d %d %d %d %d %d %d %lu", &fs, &ch, &app, &cx, &br, &vbr, &dtx, &durq, &maxb, &fec, &sseed) != 11) return -1;
+   }
    for (tok = strtok(bar + 1, " \t\r\n"); tok && nseg < MAXSEG; tok = strtok(NULL, " \t\r\n")) {
       segs[nseg].kind = tok[0] == 'a' ? 1 : tok[0] == 'n' ? 2 : 0;
-      segs[nseg].ms = atoi(tok + 1); nseg++;
+      segs[nseg].ms = atof(tok + 1); nseg++;
    }
    frame = (int)((long)fs * durq / 2000);
    enc = opus_encoder_create(fs, ch, app, &err);
@@ -76,20 +80,21 @@ static int run_line(char *line, int exno)
    opus_encoder_ctl(enc, OPUS_SET_DTX(dtx));
    opus_encoder_ctl(enc, OPUS_SET_INBAND_FEC(fec));
    if (fec) opus_encoder_ctl(enc, OPUS_SET_PACKET_LOSS_PERC(10));
+   if (fch) opus_encoder_ctl(enc, OPUS_SET_FORCE_CHANNELS(fch));
    g_phase = 0; g_t = 0; g_sig.s = sseed * 2654435761UL + 17;
    {
       int gdtx = -1, gbr = -1, gcx = -1;
       opus_encoder_ctl(enc, OPUS_GET_DTX(&gdtx)); opus_encoder_ctl(enc, OPUS_GET_BITRATE(&gbr)); opus_encoder_ctl(enc, OPUS_GET_COMPLEXITY(&gcx));
       js_open("new"); js_int("x", exno); js_int("fs", fs); js_int("ch", ch); js_int("app", app); js_int("cx", gcx);
-      js_int("br", br); js_int("vbr", vbr); js_int("dtx", gdtx); js_int("dq", durq); js_int("maxb", maxb); js_int("fec", fec);
+      js_int("br", br); js_int("vbr", vbr); js_int("dtx", gdtx); js_int("dq", durq); js_int("maxb", maxb); js_int("fec", fec); js_int("fch", fch);
       js_close();
    }
-   for (si = 0; si < nseg; si++) total_frames += (int)(((long)segs[si].ms * fs / 1000));
+   for (si = 0; si < nseg; si++) total_frames += (int)(segs[si].ms * fs / 1000 + 0.5);
    in = (float *)malloc(sizeof(float) * (size_t)(total_frames + frame) * ch);
    {
       long pos = 0; hx_rng nr; nr.s = sseed ^ 0x5bd1e995;
       for (si = 0; si < nseg; si++) {
-         int n = (int)((long)segs[si].ms * fs / 1000);
+         int n = (int)(segs[si].ms * fs / 1000 + 0.5);
          if (segs[si].kind == 1) { gen_active(in + pos * ch, n, ch, fs); }
          else if (segs[si].kind == 2) { for (k = 0; k < n * ch; k++) in[pos * ch + k] = (float)(1e-4 * (hx_unit(&nr) * 2 - 1)); }
          else memset(in + pos * ch, 0, sizeof(float) * (size_t)n * ch);
@@ -101,19 +106,21 @@ static int run_line(char *line, int exno)
    pkt = (unsigned char *)malloc(maxb > 0 ? maxb : 1);
    {
       long pos; long segend[MAXSEG]; long acc = 0;
-      for (si = 0; si < nseg; si++) { acc += (long)segs[si].ms * fs / 1000; segend[si] = acc; }
+      for (si = 0; si < nseg; si++) { acc += (long)(segs[si].ms * fs / 1000 + 0.5); segend[si] = acc; }
       for (pos = 0; pos + frame <= total_frames; pos += frame, pk++) {
-         int ret, indtx = -1, sil = 1, loud = 1, noise = 0, cls, r1, r2, l1, l2;
+         int ret, indtx = -1, sil = 1, loud = 1, noise = 0, cls, r1, r2, l1, l2; long loudn = 0;
          /* classify this packet's input: sil = every sample exactly zero; loud = lies wholly inside active segments */
          for (k = 0; k < frame * ch; k++) if (in[pos * ch + k] != 0) { sil = 0; break; }
          { long a = pos, b = pos + frame; long s0 = 0;
-           for (si = 0; si < nseg; si++) { long e0 = segend[si]; if (b > s0 && a < e0 && segs[si].kind != 1) loud = 0; if (b > s0 && a < e0 && segs[si].kind == 2) noise = 1; s0 = e0; } }
+           for (si = 0; si < nseg; si++) { long e0 = segend[si]; if (b > s0 && a < e0 && segs[si].kind != 1) loud = 0; if (b > s0 && a < e0 && segs[si].kind == 2) noise = 1;
+              if (segs[si].kind == 1) { long lo = a > s0 ? a : s0, hi = b < e0 ? b : e0; if (hi > lo) loudn += hi - lo; }
+              s0 = e0; } }
          cls = sil ? 0 : loud ? 1 : noise ? 3 : 2;
          hx_arm(10);
          ret = opus_encode_float(enc, in + pos * ch, frame, pkt, maxb);
          hx_disarm();
          opus_encoder_ctl(enc, OPUS_GET_IN_DTX(&indtx));
-         js_open("enc"); js_int("i", pk); js_int("cls", cls); js_int("r", ret);
+         js_open("enc"); js_int("i", pk); js_int("cls", cls); js_int("lf", (long)(100 * loudn / frame)); js_int("r", ret);
          js_int("toc", ret > 0 ? pkt[0] : -1); js_int("b1", ret > 1 ? pkt[1] : -1);
          js_int("nf", ret > 0 ? opus_packet_get_nb_frames(pkt, ret) : 0);
          js_int("ns", ret > 0 ? opus_packet_get_nb_samples(pkt, ret, fs) : 0);
